@@ -1091,7 +1091,12 @@ func (h *hist) injectForbidden(prop *replica) tr.M {
 		}
 		from := h.pick(fs)
 		to := h.w.Addrs[1+h.rnd.Intn(8)]
-		rec, what = h.mkTx(from, types.SendTx, &to, sim.Dna(1, 1), nil, 1+h.rnd.Intn(2), 0, map[int]uint32{}), "nonce-gap"
+		if h.rnd.Intn(3) == 0 {
+			// one below the next nonce (zero for a sender whose account carries an older epoch)
+			rec, what = h.mkTx(from, types.SendTx, &to, sim.Dna(1, 1), nil, -1, 0, map[int]uint32{}), "nonce-low"
+		} else {
+			rec, what = h.mkTx(from, types.SendTx, &to, sim.Dna(1, 1), nil, 1+h.rnd.Intn(2), 0, map[int]uint32{}), "nonce-gap"
+		}
 	}
 	prop.n.Pool.VerifInjectExecutable(rec.tx)
 	m := tr.M{}
@@ -1116,13 +1121,47 @@ func (h *hist) crafted(prop *replica, honest *types.Block, height uint64) {
 	var extra *types.Transaction
 	what := ""
 	var id string
-	switch h.rnd.Intn(3) {
+	switch h.rnd.Intn(4) {
 	case 0:
 		if len(h.included) == 0 {
 			return
 		}
 		old := h.included[h.rnd.Intn(len(h.included))]
 		extra, what, id = old.tx, "replayed-tx-in-block", old.id
+	case 3:
+		// a nonce BELOW the next one: the number the sender used last (another transaction with it), or nonce zero - for a
+		// sender whose account carries an older epoch (or none) the number "used last" IS zero, and the only guard is the
+		// strict check at application.  Senders with a stale account are preferred.
+		fs := h.funded()
+		if len(fs) == 0 {
+			return
+		}
+		from := h.pick(fs)
+		for i := 0; i < 8; i++ {
+			c := h.pick(fs)
+			if st := h.ref.n.App.State; st.GetEpoch(h.w.Addrs[c]) < st.Epoch() {
+				from = c
+				break
+			}
+		}
+		to := h.w.Addrs[1]
+		n, ep := h.nextNonce(from)
+		low := n
+		if n > 1 && h.rnd.Intn(3) == 0 {
+			low = 0
+		}
+		amount := sim.Dna(1, 1)
+		if h.rnd.Intn(3) == 0 {
+			// sweep: everything but the fee (an emptied account is pruned together with its epoch stamp)
+			if b := new(big.Int).Sub(h.ref.n.App.State.GetBalance(h.w.Addrs[from]), sim.Dna(100, 1)); b.Sign() > 0 {
+				amount = b
+			}
+		}
+		extra = h.w.Tx(sim.TxSpec{From: from, To: &to, Type: types.SendTx, Amount: amount, MaxFee: sim.Dna(100, 1), Nonce: low, Epoch: ep})
+		what, id = "nonce-low-tx-in-block", "craft"
+		if low == 0 {
+			what = "nonce-zero-tx-in-block"
+		}
 	case 1:
 		fs := h.funded()
 		if len(fs) == 0 {
